@@ -19,7 +19,7 @@ func packetsWithSizeFromBytes(length int, r io.Reader) []packet {
 	var packets []packet
 	for {
 		var value = make([]byte, length)
-		n, err := r.Read(value)
+		n, err := io.ReadFull(r, value)
 		if n == 0 {
 			break
 		}
